@@ -11,6 +11,7 @@ CONSTANTS
   CacheMisses = TRUE
   VerBumps = TRUE
   Forges = TRUE
+  Legacies = TRUE
   FailKinds = {"fnerror1", "fatal2", "reqlabel2"}
 VIEW view
 ACTION_CONSTRAINT Emit
